@@ -865,7 +865,10 @@ Proof.
   cbn [p_unit p_start p_size fst snd].
   destruct (unit_eqb u Month && (n =? 12)) eqn:E; [|auto].
   apply andb_prop in E. destruct E as [Eu En]. destruct u; try discriminate Eu.
-  assert (n = 12) by lia. subst n. repeat split; reflexivity.
+  assert (n = 12) by lia. subst n.
+  split; [reflexivity|]. split; [|split; [|split; reflexivity]].
+  - unfold stop, add_years. change (12 * 1) with 12. reflexivity.
+  - unfold days, stop, add_years. cbn [p_start fst snd]. change (12 * 1) with 12. reflexivity.
 Qed.
 
 Lemma show_injective_lemma p q : claimed p -> claimed q -> p_unit p = p_unit q ->
@@ -999,3 +1002,114 @@ Proof.
     + unfold colon_free. pose proof A as A'. all_dfacts. cbn [has_char]. rw_chars. reflexivity.
     + apply not_eternity_digit. assumption.
 Qed.
+
+(** ** One lemma per rejection class of the statement *)
+
+(* 1. impossible calendar date, alone or as the date field of a longer text *)
+Lemma rejects_impossible_date_lemma y m d : 0 <= y <= 9999 -> 0 <= m <= 99 -> 0 <= d <= 99 ->
+  validb (y, m, d) = false ->
+  rejected (iso_text y m d) /\
+  forall u rest, Forall colon_free (u :: rest) -> rejected (join_colon (u :: iso_text y m d :: rest)).
+Proof.
+  intros Hy Hm Hd Hv. pose proof (impossible_date_unparsable y m d Hy Hm Hd Hv) as He.
+  rewrite iso_text_spec in * by lia. destruct (t_ymd_plain y m d Hy Hm Hd) as [Hc Hl]. split.
+  - eapply rejected_plain; eassumption.
+  - intros u rest Hf. inversion Hf; subst. eapply rejected_long; [|eassumption].
+    constructor; [assumption|]. constructor; assumption.
+Qed.
+
+(* 1'. week number beyond the last ISO week of the year (week 53 of a 52-week year) *)
+Lemma rejects_week_beyond_lemma y w : 0 <= y <= 9999 -> 1 <= w <= 53 -> weeks_in_iso_year y < w ->
+  let week := pad4 y ++ "-W" ++ pad2 w in
+  rejected week /\
+  (forall wd, 1 <= wd <= 7 -> rejected (week ++ "-" ++ show_Z wd)) /\
+  forall u rest, Forall colon_free (u :: rest) ->
+    rejected (join_colon (u :: week :: rest)) /\
+    forall wd, 1 <= wd <= 7 -> rejected (join_colon (u :: (week ++ "-" ++ show_Z wd) :: rest)).
+Proof.
+  intros Hy Hw Hlt week. destruct (week_beyond_unparsable y w Hy Hw Hlt) as [E1 E2].
+  destruct (t_yw_plain y w Hy ltac:(lia)) as (C1 & L1 & P2).
+  assert (week = t_yw y w) as Ew. { unfold week. rewrite pad4_spec, pad2_spec by lia. reflexivity. }
+  assert (forall wd, 1 <= wd <= 7 -> week ++ "-" ++ show_Z wd = t_ywd y w wd) as Ewd.
+  { intros wd Hwd. rewrite Ew, show_Z_1 by lia. reflexivity. }
+  split; [|split].
+  - rewrite Ew. eapply rejected_plain; eassumption.
+  - intros wd Hwd. rewrite Ewd by assumption. destruct (P2 wd ltac:(lia)) as [C2 L2].
+    eapply rejected_plain; [assumption|assumption|apply E2; assumption].
+  - intros u rest Hf. inversion Hf; subst. split.
+    + rewrite Ew. eapply rejected_long; [|eassumption]. constructor; [assumption|]. constructor; assumption.
+    + intros wd Hwd. rewrite Ewd by assumption. destruct (P2 wd ltac:(lia)) as [C2 L2].
+      eapply rejected_long; [|apply E2; assumption]. constructor; [assumption|]. constructor; assumption.
+Qed.
+
+(* 2. unit lighter than the precision of the date (engine's unit weights, Tables.unit_weight) *)
+Lemma rejects_finer_unit_lemma u body rest q : Forall colon_free (body :: rest) ->
+  parse_simple body = Ok q -> unit_weight u < unit_weight (p_unit q) ->
+  rejected (join_colon (unit_name u :: body :: rest)).
+Proof.
+  intros Hf Hq Hw. unfold rejected. rewrite parse_period_long.
+  2: { constructor; [apply unit_name_colon_free|assumption]. }
+  rewrite (parse_simple_ok_instant _ _ Hq). unfold period_of_components. rewrite unit_of_name_name, Hq.
+  assert (unit_weight u <? unit_weight (p_unit q) = true) as Ew by lia.
+  destruct u; try (eexists; reflexivity);
+    (destruct rest as [|sz [|x xs]]; cbn [bind];
+     [rewrite Ew; eauto | destruct (py_int sz); cbn [bind]; [rewrite Ew|]; eauto | eauto]).
+Qed.
+
+(* 3. size that is not an integer *)
+Lemma rejects_noninteger_size_lemma u body sz : Forall colon_free [u; body; sz] -> py_int sz = None ->
+  rejected (join_colon [u; body; sz]).
+Proof.
+  intros Hf Hs. unfold rejected. rewrite parse_period_long by assumption.
+  destruct (is_instant_str body); [|eauto]. unfold period_of_components.
+  destruct (unit_of_name u) as [[]|]; eauto; destruct (parse_simple body); cbn [bind]; eauto;
+    rewrite Hs; cbn [bind]; eauto.
+Qed.
+
+(* 4. unknown unit *)
+Lemma unit_of_name_none u : (forall v, u <> unit_name v) -> unit_of_name u = None.
+Proof.
+  intros H. unfold unit_of_name, all_units. cbn [find].
+  repeat match goal with
+  | |- context [(unit_name ?v =? u)%string] =>
+      let E := fresh in destruct (unit_name v =? u)%string eqn:E;
+      [apply String.eqb_eq in E; exfalso; exact (H v (eq_sym E))|]
+  end. reflexivity.
+Qed.
+
+Lemma rejects_unknown_unit_lemma u body rest : Forall colon_free (u :: body :: rest) ->
+  (forall v, v <> Eternity -> u <> unit_name v) -> rejected (join_colon (u :: body :: rest)).
+Proof.
+  intros Hf Hu. unfold rejected. rewrite parse_period_long by assumption.
+  destruct (is_instant_str body); [|eauto]. unfold period_of_components.
+  destruct (unit_of_name u) as [v|] eqn:E; [|eauto].
+  assert (u = unit_name v) as Ev.
+  { unfold unit_of_name in E. apply find_some in E. destruct E as [_ E]. apply String.eqb_eq in E. auto. }
+  destruct v; eauto; exfalso; eapply Hu; try exact Ev; discriminate.
+Qed.
+
+(* 5. extra fields *)
+Lemma rejects_extra_fields_lemma a b c d rest : Forall colon_free (a :: b :: c :: d :: rest) ->
+  rejected (join_colon (a :: b :: c :: d :: rest)).
+Proof.
+  intros Hf. unfold rejected. rewrite parse_period_long by assumption.
+  destruct (is_instant_str b); [|eauto]. unfold period_of_components.
+  destruct (unit_of_name a) as [[]|]; eauto; destruct (parse_simple b); cbn [bind]; eauto.
+Qed.
+
+(* 6. empty fields *)
+Lemma rejects_empty_field_lemma u body rest : Forall colon_free (u :: body :: rest) ->
+  In "" (u :: body :: rest) -> rejected (join_colon (u :: body :: rest)).
+Proof.
+  intros Hf Hin. unfold rejected. rewrite parse_period_long by assumption.
+  destruct (is_instant_str body) eqn:Ei; [|eauto]. unfold period_of_components.
+  destruct Hin as [E|[E|Hin]]; [subst u|subst body|].
+  - cbn. eauto.
+  - discriminate Ei.
+  - destruct (unit_of_name u) as [[]|]; eauto; destruct (parse_simple body); cbn [bind]; eauto;
+      (destruct rest as [|sz [|x xs]]; [destruct Hin| |cbn [bind]; eauto]);
+      (destruct Hin as [E|[]]; subst sz; cbn; eauto).
+Qed.
+
+Lemma rejects_empty_text_lemma : rejected "".
+Proof. eexists. reflexivity. Qed.
